@@ -282,7 +282,9 @@ impl Prop for C04 {
          related canonical states, every cell == {Reduce(p,len) : item (p,len) present, a in union, \
          len=|rhs| or (RN and rest nullable)} + Accept only for the completed augmented item on \
          STOP. Consequences on the same grammar: reference LALR(1) conflict-free => LR-mode table has \
-         no conflict for all three types; raw table conflict-free => <=1 reference derivation tree \
+         no conflict for all three types; Settings::process_grammar in LR mode with nothing preferred \
+         accepts the grammar exactly when the table of that type has no cell with competing actions \
+         (all three types); raw table conflict-free => <=1 reference derivation tree \
          for 12 sampled sentences. non-trivial = (grammar, table type) with >= 1 table state that \
          merges canonical states with different lookaheads"
             .into()
@@ -407,6 +409,46 @@ impl Prop for C04 {
                         )
                     }
                     Err(None) => {}
+                }
+            }
+            // the user-facing entry point in LR mode, nothing preferred: the grammar "compiles"
+            // exactly when the table of this type has no cell with competing actions
+            {
+                let lcfg = Cfg { table: Some(tt), prefer_shifts: Some(false), pse: Some(false), ..Cfg::lr() };
+                if let Ok(ld) = compile_or_discard(&text, &lcfg, st) {
+                    let dir = super::c16::thread_dir("c04");
+                    let gpath = dir.join("g.rustemo");
+                    let _ = std::fs::remove_file(dir.join("g.rs"));
+                    if std::fs::write(&gpath, &text).is_ok() {
+                        let settings = lcfg.settings().builder_type(rustemo_compiler::BuilderType::Generic).force(true);
+                        st.sub();
+                        match crate::compile::guarded(|| settings.process_grammar(&gpath)) {
+                            Err(_) => st.discard("compiler-panic(C16)"),
+                            Ok(Ok(())) => {
+                                if has_conflicts(&ld) {
+                                    return Outcome::fail(
+                                        format!("lr-mode-compiles-with-conflicts|{}", tt.name()),
+                                        format!("grammar:\n{text}\nLR, table type {}, prefer_shifts=false, prefer_shifts_over_empty=false: {} cell(s) keep competing actions, yet process_grammar generated a parser", tt.name(), crate::compile::conflict_cells(&ld)),
+                                    );
+                                }
+                                st.class("lr-entry-point-accepts");
+                            }
+                            Ok(Err(e)) => {
+                                let m = format!("{e}");
+                                if m.contains("not deterministic") {
+                                    if !has_conflicts(&ld) {
+                                        return Outcome::fail(
+                                            format!("lr-mode-rejects-conflict-free-table|{}", tt.name()),
+                                            format!("grammar:\n{text}\ntable type {}: no cell keeps competing actions, yet: {m}", tt.name()),
+                                        );
+                                    }
+                                    st.class("lr-entry-point-reports-conflicts");
+                                } else {
+                                    st.class("lr-entry-point-other-error");
+                                }
+                            }
+                        }
+                    }
                 }
             }
         }
